@@ -87,9 +87,10 @@ def _run_one(args):
 
 
 # ------------------------------------------------------------------ replay gate
-def run_replay(script_path, timeout=300):
-    """run a stand-alone replay against the untouched library; returns (reproduced, output)"""
-    b = _REPLAYS.get("budget")
+def run_replay(script_path, timeout=300, count=True):
+    """run a stand-alone replay against the untouched library; returns (reproduced, output).  `count=False` (used for the one
+    confirming replay per case of a counterexample that matches a listed known finding) does not draw on the replay cap"""
+    b = _REPLAYS.get("budget") if count else None
     if b is not None:
         with b.get_lock():
             if b.value <= 0:
